@@ -112,13 +112,24 @@ func zzNewRingCmp(n int) *zzRing {
 	if n == 1 {
 		return r
 	}
-	descents := 0
+	// exactly one descent in the cyclic sequence (boolean, no counters)
+	desc := make([]bool, n)
 	for i := range r.ids {
 		next := r.ids[(i+1)%n]
 		rt.Assume(r.ids[i] != next)
-		descents += rt.IteInt(r.ids[i] > next, 1, 0)
+		desc[i] = r.ids[i] > next
 	}
-	rt.Assume(descents == 1)
+	one := false
+	for i := range desc {
+		only := desc[i]
+		for j := range desc {
+			if j != i {
+				only = rt.And(only, !desc[j])
+			}
+		}
+		one = rt.Or(one, only)
+	}
+	rt.Assume(one)
 	for i := 1; i < n; i++ {
 		r.dist[i] = (r.ids[i] - r.ids[0]) & zzMask
 	}
